@@ -85,6 +85,11 @@ func c17Build(m *c17Mon) *NodeBuilder {
 			n.WithPrepFuncAny(prepA)
 		}
 		if execRes {
+			if vNondet[bool]("execSetTwice") {
+				// the last setting wins: an Any-style exec set earlier leaves no trace
+				vCover("exec-set-any-style-then-result-style")
+				n.WithExecFuncAny(func(ctx context.Context, p any) (any, error) { return nil, nil })
+			}
 			n.WithExecFunc(execR)
 		} else {
 			n.WithExecFuncAny(execA)
